@@ -52,4 +52,6 @@ class CallWriteHandler(AbstractWriteHandler):
         self.decompiler.write_stmnt(f"call @label_{op.label.id};")
         exits = self.start_vertex.out_edges()
         assert 3 > len(exits) > 0, f"A call must have exactly one or two points to jump to, has {len(exits)}."
-        return exits[0].target_vertex
+        # Continue with the operation after the call (the other edge leads to the label that is called).
+        # The order of the edges is not reliable, the loop detection removes and re-adds edges.
+        return min(exits, key=lambda e: e["flow_level"]).target_vertex
